@@ -1,7 +1,7 @@
 (* C03  Proofs about the VNG model (Model/Vng.v): every layer of the writer is
    inverted by both readers. *)
 From ZV Require Import Base.Prelude Model.Vng.
-From Coq Require Import Permutation ZifyN ZifyNat ZifyBool.
+From Coq Require Import Permutation Sorted ZifyN ZifyNat ZifyBool.
 Local Open Scope N_scope.
 
 (* ------------------------------------------------------------------ *)
@@ -252,23 +252,34 @@ Proof.
   unfold prim_encode, pe_finish. destruct (pe_state m small vals) as [[|[k c] [|e d]]|]; reflexivity.
 Qed.
 
+Lemma pe_fold_nodup m vals (d0 d : dict) :
+  NoDup (keys d0) -> fold_left (pe_update m) vals (Some d0) = Some d -> NoDup (keys d).
+Proof. intros H0 E. pose proof (pe_fold_distinct m vals d0 H0) as D. rewrite E in D. apply D. Qed.
+
+Lemma pe_state_nodup m small vals d : pe_state m small vals = Some d -> NoDup (keys d).
+Proof.
+  unfold pe_state, pe_init. destruct small; [rewrite fold_pe_none; discriminate|].
+  apply (pe_fold_nodup m vals []). constructor.
+Qed.
+
 Section PrimRoundtrip.
   Variables order_sel order_meta : dict -> dict.
-  (* both sorts return a permutation of the entries ... *)
+  (* both makeDict calls return a permutation of the entries ... *)
   Hypothesis order_sel_perm : forall d, Permutation (order_sel d) d.
-  (* ... and the entries stored in the metadata are in the order used for the selectors *)
-  Hypothesis orders_agree : forall d, order_meta d = order_sel d.
+  (* ... and, on a dictionary (distinct keys), the same one *)
+  Hypothesis orders_agree : forall d, NoDup (keys d) -> order_meta d = order_sel d.
 
-  Theorem prim_roundtrip maxdict small vals :
+  Lemma prim_roundtrip_gen maxdict small vals :
     (maxdict <= 256)%nat ->
     prim_decode (prim_encode order_sel order_meta maxdict small vals) = Some vals.
   Proof.
     intros Hm. unfold prim_encode, pe_finish.
     destruct (pe_state maxdict small vals) as [d|] eqn:Hs; [|reflexivity].
+    pose proof (pe_state_nodup _ _ _ _ Hs) as Hnd.
     apply pe_state_inv in Hs as [Hin Hlen].
     destruct d as [|[k c] [|e d']]; [reflexivity| |].
     - simpl. unfold nlen. rewrite Nat2N.id. f_equal. symmetry. apply all_in_singleton. exact Hin.
-    - set (d := (k, c) :: e :: d') in *. simpl prim_decode. rewrite orders_agree.
+    - set (d := (k, c) :: e :: d') in *. simpl prim_decode. rewrite (orders_agree d Hnd).
       rewrite map_map. rewrite (all_some_map_Some _ (fun v => v)); [rewrite map_id; reflexivity|].
       intros v Hv. unfold selector.
       assert (Hk : In v (map fst (order_sel d))).
@@ -335,17 +346,14 @@ Qed.
 Section ColumnRoundtrip.
   Variables order_sel order_meta : dict -> dict.
   Hypothesis order_sel_perm : forall d, Permutation (order_sel d) d.
-  Hypothesis orders_agree : forall d, order_meta d = order_sel d.
+  Hypothesis orders_agree : forall d, NoDup (keys d) -> order_meta d = order_sel d.
 
-  (* both readers invert the column writer, for every column (any number of
-     values, nulls anywhere, any number of distinct values) and every
-     dictionary bound up to the 256 a selector byte can address *)
-  Theorem column_roundtrip vec maxdict small (l : list body) :
+  Lemma column_roundtrip_gen vec maxdict small (l : list body) :
     (maxdict <= 256)%nat ->
-    col_decode vec (col_encode order_sel order_meta maxdict small l) = Some l.
+    col_decode vec (col_encode_gen order_sel order_meta maxdict small l) = Some l.
   Proof.
-    intros Hm. unfold col_encode.
-    pose proof (prim_roundtrip order_sel order_meta order_sel_perm orders_agree maxdict small (somes l) Hm) as HP.
+    intros Hm. unfold col_encode_gen.
+    pose proof (prim_roundtrip_gen order_sel order_meta order_sel_perm orders_agree maxdict small (somes l) Hm) as HP.
     destruct (nulls_finish (nulls_state (map is_null l))) as [runs|] eqn:HF.
     - simpl. rewrite prim_len_encode, HP.
       rewrite (nulls_finish_count _ _ HF), count_split.
@@ -526,26 +534,23 @@ Proof.
 Qed.
 
 Section ObjectRoundtrip.
-  Variables order_sel order_meta : dict -> dict.
-  Hypothesis order_sel_perm : forall d, Permutation (order_sel d) d.
-  Hypothesis orders_agree : forall d, order_meta d = order_sel d.
+  Variables order_sel order_meta : tyid -> dict -> dict.
+  Hypothesis order_sel_perm : forall t d, Permutation (order_sel t d) d.
+  Hypothesis orders_agree : forall t d, NoDup (keys d) -> order_meta t d = order_sel t d.
 
-  (* Writing any sequence of (type, nullable primitive) values and reading it
-     back through the row reader ([vec = false]) or through the vector cache
-     + materializer ([vec = true]) yields the same sequence in the same order. *)
-  Theorem vng_roundtrip vec maxdict (small : tyid -> bool) (vs : list value) :
+  Lemma vng_roundtrip_gen vec maxdict (small : tyid -> bool) (vs : list value) :
     (maxdict <= 256)%nat ->
-    obj_read vec (obj_encode order_sel order_meta maxdict small vs) = Some vs.
+    obj_read vec (obj_encode_gen order_sel order_meta maxdict small vs) = Some vs.
   Proof.
-    intros Hm. unfold obj_encode.
+    intros Hm. unfold obj_encode_gen.
     destruct (which_spec vs) as [Hd Hin]. set (w := which vs) in *.
     assert (Hcols : all_some (map (col_decode vec)
-                     (map (fun t => col_encode order_sel order_meta maxdict (small t) (column_of t vs)) w))
+                     (map (fun t => col_encode_gen (order_sel t) (order_meta t) maxdict (small t) (column_of t vs)) w))
                     = Some (map (fun t => column_of t vs) w)).
     { rewrite map_map. apply all_some_map_Some. intros t _.
-      apply column_roundtrip; assumption. }
+      apply column_roundtrip_gen; auto. }
     assert (Hdyn : obj_read vec (ODyn w (map (fun v => N.of_nat (tag_of w (fst v))) vs)
-                     (map (fun t => col_encode order_sel order_meta maxdict (small t) (column_of t vs)) w) (nlen vs)) = Some vs).
+                     (map (fun t => col_encode_gen (order_sel t) (order_meta t) maxdict (small t) (column_of t vs)) w) (nlen vs)) = Some vs).
     { simpl. rewrite Hcols. rewrite (total_columns w Hd vs Hin), map_length, Nat.eqb_refl.
       rewrite Bool.andb_false_r.
       rewrite <- (map_map (fun v => tag_of w (fst v)) N.of_nat), map_N_nat.
@@ -555,7 +560,7 @@ Section ObjectRoundtrip.
       - rewrite (mux_columns w Hd vs Hin). apply retag_tags, Hin. }
     destruct w as [|t [|t' w']] eqn:Ew; try exact Hdyn.
     (* exactly one top-level type: no Dynamic node *)
-    simpl. rewrite column_roundtrip by assumption.
+    simpl. rewrite column_roundtrip_gen by auto.
     assert (Hall : forall v, In v vs -> fst v = t).
     { intros v Hv. destruct (Hin v Hv) as [E|[]]. symmetry. exact E. }
     rewrite (column_all t vs Hall). f_equal. apply all_same_type, Hall.
@@ -563,44 +568,178 @@ Section ObjectRoundtrip.
 End ObjectRoundtrip.
 
 (* ------------------------------------------------------------------ *)
-(* The hypotheses matter.  (1) With more than 256 dictionary entries a
-   selector byte wraps around; (2) when the metadata lists the entries in an
-   order other than the one the selectors were computed with, values are
-   exchanged: this is what vng.PrimitiveEncoder does for entries that compare
-   equal but differ in their bytes (float +0 / -0), because makeDict sorts a Go
-   map (random iteration order) independently in makeDictVector and Metadata. *)
+(* makeDict is deterministic: sorting by a strict total order gives the same
+   list whatever order the Go map was iterated in.  (Totality is what the
+   tie-break on the bytes in sortDict provides: without it float 0. and -0.
+   are incomparable and the two calls could disagree.) *)
+
+Record strict_total (less : bytes -> bytes -> bool) : Prop := {
+  st_irrefl : forall a, less a a = false;
+  st_trans : forall a b c, less a b = true -> less b c = true -> less a c = true;
+  st_total : forall a b, a <> b -> less a b = true \/ less b a = true
+}.
+
+Section SortFacts.
+  Variable less : bytes -> bytes -> bool.
+  Hypothesis Hst : strict_total less.
+
+  Definition eless (x y : bytes * N) : Prop := less (fst x) (fst y) = true.
+
+  Lemma dict_insert_perm e l : Permutation (dict_insert less e l) (e :: l).
+  Proof.
+    induction l as [|x l IH]; simpl; [apply Permutation_refl|].
+    destruct (less (fst e) (fst x)); [apply Permutation_refl|].
+    eapply Permutation_trans; [apply perm_skip, IH|apply perm_swap].
+  Qed.
+
+  Lemma sort_dict_perm d : Permutation (sort_dict less d) d.
+  Proof.
+    induction d as [|e d IH]; simpl; [constructor|].
+    eapply Permutation_trans; [apply dict_insert_perm|apply perm_skip, IH].
+  Qed.
+
+  Lemma dict_insert_sorted e l :
+    ~ In (fst e) (keys l) -> StronglySorted eless l -> StronglySorted eless (dict_insert less e l).
+  Proof.
+    induction l as [|x l IH]; intros Hn Hs; simpl; [repeat constructor|].
+    inversion Hs as [|? ? Hs' Hf]; subst.
+    destruct (less (fst e) (fst x)) eqn:E.
+    - constructor; [exact Hs|]. constructor; [exact E|].
+      eapply Forall_impl; [|exact Hf]. intros y Hy. unfold eless in *. eapply st_trans; eauto.
+    - constructor.
+      + apply IH; [intros H; apply Hn; right; exact H|exact Hs'].
+      + assert (Hx : eless x e).
+        { unfold eless. destruct (st_total _ Hst (fst e) (fst x)) as [H|H]; [|congruence|exact H].
+          intros Heq. apply Hn. left. symmetry. exact Heq. }
+        eapply Permutation_Forall; [apply Permutation_sym, dict_insert_perm|].
+        constructor; [exact Hx|exact Hf].
+  Qed.
+
+  Lemma sort_dict_sorted d : NoDup (keys d) -> StronglySorted eless (sort_dict less d).
+  Proof.
+    induction d as [|e d IH]; intros Hn; simpl; [constructor|].
+    inversion Hn as [|? ? Hni Hnd]; subst. apply dict_insert_sorted; [|apply IH, Hnd].
+    intros H. apply Hni. eapply Permutation_in; [|exact H].
+    apply Permutation_map, sort_dict_perm.
+  Qed.
+
+  Lemma sorted_unique (l1 : dict) : forall l2,
+    StronglySorted eless l1 -> StronglySorted eless l2 -> Permutation l1 l2 -> l1 = l2.
+  Proof.
+    induction l1 as [|x l1 IH]; intros l2 H1 H2 P.
+    - apply Permutation_nil in P. symmetry. exact P.
+    - destruct l2 as [|y l2]; [apply Permutation_sym, Permutation_nil in P; discriminate|].
+      inversion H1 as [|? ? H1' F1]; inversion H2 as [|? ? H2' F2]; subst.
+      assert (E : x = y).
+      { assert (Hx : In x (y :: l2)) by (eapply Permutation_in; [exact P|left; reflexivity]).
+        assert (Hy : In y (x :: l1)) by (eapply Permutation_in; [apply Permutation_sym, P|left; reflexivity]).
+        destruct Hx as [Hx|Hx]; [symmetry; exact Hx|]. destruct Hy as [Hy|Hy]; [exact Hy|].
+        rewrite Forall_forall in F1, F2. pose proof (F1 _ Hy) as A. pose proof (F2 _ Hx) as B.
+        unfold eless in *. pose proof (st_trans _ Hst _ _ _ A B) as C.
+        rewrite (st_irrefl _ Hst) in C. discriminate. }
+      subst y. f_equal. apply IH; auto. eapply Permutation_cons_inv. exact P.
+  Qed.
+
+  Theorem make_dict_deterministic (iter1 iter2 : dict -> dict) :
+    (forall d, Permutation (iter1 d) d) -> (forall d, Permutation (iter2 d) d) ->
+    forall d, NoDup (keys d) -> make_dict less iter2 d = make_dict less iter1 d.
+  Proof.
+    intros P1 P2 d Hn. unfold make_dict.
+    assert (N1 : NoDup (keys (iter1 d))).
+    { eapply Permutation_NoDup; [|exact Hn]. apply Permutation_map, Permutation_sym, P1. }
+    assert (N2 : NoDup (keys (iter2 d))).
+    { eapply Permutation_NoDup; [|exact Hn]. apply Permutation_map, Permutation_sym, P2. }
+    apply sorted_unique; try (apply sort_dict_sorted; assumption).
+    eapply Permutation_trans; [apply sort_dict_perm|].
+    eapply Permutation_trans; [apply P2|].
+    eapply Permutation_trans; [apply Permutation_sym, P1|apply Permutation_sym, sort_dict_perm].
+  Qed.
+
+  Lemma make_dict_perm iter : (forall d, Permutation (iter d) d) -> forall d, Permutation (make_dict less iter d) d.
+  Proof. intros P d. unfold make_dict. eapply Permutation_trans; [apply sort_dict_perm|apply P]. Qed.
+End SortFacts.
+
+(* ------------------------------------------------------------------ *)
+(* The writer as it is: sortDict by a strict total order, two independent
+   iterations of the Go map. *)
+
+Theorem prim_roundtrip less iter1 iter2 maxdict small vals :
+  strict_total less ->
+  (forall d, Permutation (iter1 d) d) -> (forall d, Permutation (iter2 d) d) ->
+  (maxdict <= 256)%nat ->
+  prim_decode (prim_encode (make_dict less iter1) (make_dict less iter2) maxdict small vals) = Some vals.
+Proof.
+  intros Hst P1 P2 Hm. apply prim_roundtrip_gen; [apply make_dict_perm; assumption| |exact Hm].
+  intros d Hn. apply make_dict_deterministic; assumption.
+Qed.
+
+(* both readers invert the column writer, for every column (any number of
+   values, nulls anywhere, any number of distinct values) and every
+   dictionary bound up to the 256 a selector byte can address *)
+Theorem column_roundtrip less iter1 iter2 vec maxdict small (l : list body) :
+  strict_total less ->
+  (forall d, Permutation (iter1 d) d) -> (forall d, Permutation (iter2 d) d) ->
+  (maxdict <= 256)%nat ->
+  col_decode vec (col_encode less iter1 iter2 maxdict small l) = Some l.
+Proof.
+  intros Hst P1 P2 Hm. unfold col_encode.
+  apply column_roundtrip_gen; [apply make_dict_perm; assumption| |exact Hm].
+  intros d Hn. apply make_dict_deterministic; assumption.
+Qed.
+
+(* Writing any sequence of (type, nullable primitive) values and reading it
+   back through the row reader ([vec = false]) or through the vector cache
+   + materializer ([vec = true]) yields the same sequence in the same order. *)
+Theorem vng_roundtrip (less : tyid -> bytes -> bytes -> bool) iter1 iter2 vec maxdict
+        (small : tyid -> bool) (vs : list value) :
+  (forall t, strict_total (less t)) ->
+  (forall d, Permutation (iter1 d) d) -> (forall d, Permutation (iter2 d) d) ->
+  (maxdict <= 256)%nat ->
+  obj_read vec (obj_encode less iter1 iter2 maxdict small vs) = Some vs.
+Proof.
+  intros Hst P1 P2 Hm. unfold obj_encode.
+  apply vng_roundtrip_gen; [intros t; apply make_dict_perm; auto| |exact Hm].
+  intros t d Hn. apply make_dict_deterministic; auto.
+Qed.
+
+(* ------------------------------------------------------------------ *)
+(* The hypotheses are satisfiable (bytewise order), and the bound 256 on the
+   dictionary size is tight: a selector is one byte. *)
+
+Definition bytes_ltb (a b : bytes) : bool := match bytes_cmp a b with Lt => true | _ => false end.
+
+Lemma bytes_ltb_strict_total : strict_total bytes_ltb.
+Proof.
+  constructor; unfold bytes_ltb.
+  - intros a. rewrite bytes_cmp_refl. reflexivity.
+  - intros a b c H1 H2.
+    destruct (bytes_cmp a b) eqn:E1; try discriminate. destruct (bytes_cmp b c) eqn:E2; try discriminate.
+    rewrite (bytes_cmp_lt_trans _ _ _ E1 E2). reflexivity.
+  - intros a b Hne. destruct (bytes_cmp a b) eqn:E.
+    + apply bytes_cmp_eq in E. contradiction.
+    + left. reflexivity.
+    + right. rewrite bytes_cmp_antisym, E. reflexivity.
+Qed.
 
 Fixpoint distinct_vals (n : nat) : list bytes :=
   match n with O => [] | S k => distinct_vals k ++ [[N.of_nat k / 256; N.of_nat k mod 256]] end.
 
 Example dict_257_entries_break_roundtrip :
   let vals := distinct_vals 257 in
-  prim_decode (prim_encode (fun d => d) (fun d => d) 257 false vals) <> Some vals.
+  prim_decode (prim_encode (make_dict bytes_ltb (fun d => d)) (make_dict bytes_ltb (@rev _)) 257 false vals) <> Some vals.
 Proof. vm_compute. intros E. discriminate E. Qed.
 
 Example dict_256_entries_roundtrip :
   let vals := distinct_vals 256 in
-  prim_decode (prim_encode (fun d => d) (fun d => d) 256 false vals) = Some vals.
+  prim_decode (prim_encode (make_dict bytes_ltb (fun d => d)) (make_dict bytes_ltb (@rev _)) 256 false vals) = Some vals.
 Proof. vm_compute. reflexivity. Qed.
 
+(* float -0. / +0. in one column, the two map iterations in opposite orders *)
 Definition pos_zero : bytes := [0; 0; 0; 0; 0; 0; 0; 0].
 Definition neg_zero : bytes := [0; 0; 0; 0; 0; 0; 0; 128].
 
-Theorem column_roundtrip_refuted_when_orders_differ :
-  exists order_sel order_meta : dict -> dict,
-    (forall d, Permutation (order_sel d) d) /\ (forall d, Permutation (order_meta d) d) /\
-    exists l : list body,
-      col_decode false (col_encode order_sel order_meta 256 false l) <> Some l /\
-      col_decode true (col_encode order_sel order_meta 256 false l) <> Some l.
-Proof.
-  exists (fun d => d), (fun d => rev d).
-  split; [intros d; apply Permutation_refl|].
-  split; [intros d; apply Permutation_sym, Permutation_rev|].
-  exists [Some neg_zero; Some pos_zero].
-  split; vm_compute; intros E; discriminate E.
-Qed.
-
-(* non-vacuity: the identity order satisfies the hypotheses of the theorems *)
-Example hypotheses_satisfiable :
-  (forall d : dict, Permutation ((fun d => d) d) d) /\ (forall d : dict, (fun d => d) d = (fun d : dict => d) d).
-Proof. split; intros d; [apply Permutation_refl|reflexivity]. Qed.
+Example signed_zero_column_roundtrip :
+  let l := [Some neg_zero; Some pos_zero; None; Some neg_zero] in
+  col_decode false (col_encode bytes_ltb (fun d => d) (@rev _) 256 false l) = Some l /\
+  col_decode true (col_encode bytes_ltb (fun d => d) (@rev _) 256 false l) = Some l.
+Proof. split; vm_compute; reflexivity. Qed.
